@@ -38,9 +38,9 @@ func init() {
 		ID:    "R09.3",
 		Title: "no ambient nondeterminism in serialization and hashing packages",
 		Text:  "restlicodec, fnv1a, restli/equals, restli/batchkeyset and the data packages call nothing from time, math/rand, crypto/rand, os (env, pid, hostname) or runtime, and do not format with %p; fnv1a reads no package-level variable.",
-		Props:   []string{"C09", "C10"},
-		Floor:   map[string]int{"v2": 5, "root": 4},
-		Run:     runR093,
+		Props: []string{"C09", "C10"},
+		Floor: map[string]int{"v2": 5, "root": 4},
+		Run:   runR093,
 	})
 	core.Register(&core.Rule{
 		ID:    "R10.3",
@@ -95,8 +95,8 @@ type mapRangeSite struct {
 
 // decodeSide lists functions whose map loops are on the decoding side (outside C09): listed, not judged.
 var decodeSide = map[string]string{
-	"restlicodec.QueryParamsReader.ReadRecord":                         "decoding query parameters (missing fields are sorted by checkMissingFields)",
-	"restlicodec.(*anyReader).ReadMap":                                 "decoding an untyped Go map",
+	"restlicodec.QueryParamsReader.ReadRecord":                        "decoding query parameters (missing fields are sorted by checkMissingFields)",
+	"restlicodec.(*anyReader).ReadMap":                                "decoding an untyped Go map",
 	"restlicodec.(*missingFieldsTracker).recordMissingRequiredFields": "accumulates missing fields, sorted by checkMissingFields before reporting",
 }
 
